@@ -12,7 +12,7 @@ from ..Utilities import Terminal, _types
 # fem
 if TYPE_CHECKING:
     from ..FEM import Mesh
-from ..FEM import Operators
+from ..FEM import Operators, FeArray, MatrixType
 
 # models
 from .. import Models
@@ -122,7 +122,12 @@ class Thermal(_Simu):
             K_e = Operators.Bilinear.GradUGradV(groupElem, coef=thermalModel.k)
 
             # reaction part
-            coef = self.rho * thermalModel.c
+            # rho and c may each be a scalar, per element (Ne,) or per Gauss point (Ne, nPg)
+            Ne = groupElem.Ne
+            nPg = groupElem.Get_gauss(MatrixType.mass).nPg
+            coef = FeArray.broadcast(self.rho, Ne, nPg) * FeArray.broadcast(
+                thermalModel.c, Ne, nPg
+            )
             C_e = Operators.Bilinear.UV(groupElem, coef=coef, dof_n=1)
 
             # rescale
